@@ -33,6 +33,7 @@ type frameInfo struct {
 	comps     map[string]string
 	all       bool
 	typeLines []string // datatype declarations the component sorts refer to
+	freshOnly map[string]bool // written only at objects the function allocates itself
 }
 
 type implInfo struct {
@@ -402,6 +403,9 @@ func (w *World) frameOf(fn *ssa.Function, c *LoadedContract) *frameInfo {
 		fi.comps[comp] = ex.compSort[comp]
 	}
 	fi.typeLines = append([]string(nil), ex.ctx.typeLines...)
+	if !fi.all {
+		fi.freshOnly = ex.freshOnlyComps(0, 0)
+	}
 	for _, n := range ex.notes {
 		if strings.Contains(n, "unbounded frame") {
 			fi.all = true
